@@ -550,6 +550,23 @@ def run(ck):
                             for anc in H.ancestors(guf, c):
                                 if anc.get('k') in ('Call', 'MCall'):
                                     bor.add(anc.get('m') or short(H.callee_decl(anc) or '?'))
+        # the buffer starts empty in this call: a fresh Vec, or cleared in front of the serializer that fills it (a buffer kept between sources
+        # and not cleared makes every later output the concatenation of all documents so far)
+        fresh = False
+        fwhy = 'buffer not found'
+        if buf_root is not None:
+            bsite = H.binding_sites(guf).get(buf_root.get('hid'))
+            init = H.strip_refs(bsite['node']['init']) if bsite and bsite['kind'] == 'let' and bsite['node'].get('init') is not None else None
+            if init is not None and init.get('k') == 'Call' and (init.get('def') or '').split('::')[-1] in ('new', 'with_capacity', 'default') and 'Vec' in (B.ty(init) or ''):
+                fresh, fwhy = True, 'let mut %s = %s in generate_ui_file: empty for every source' % (bname, pp(init, maxlen=30))
+            else:
+                clears = [c for c in H.calls_in(guf['body']) if c.get('k') == 'MCall' and c.get('m') in ('clear',) and (H.root_local(c['recv']) or {}).get('hid') == buf_root.get('hid')]
+                if fill is not None and any(H.lexically_precedes_dominating(guf, c, fill) for c in clears):
+                    fresh, fwhy = True, '%s.clear() in front of the serializer' % bname
+                else:
+                    fwhy = '`%s` is %s and is not cleared in front of the serializer' % (bname, pp(init, maxlen=50) if init is not None else 'handed in from outside')
+        ck.ob('R15.5', 'buffer-starts-empty|%s' % pname, fresh, B.loc(w), fwhy if fresh else
+              'the bytes written to %s are not only what this call serialized: %s (what was left there by an earlier source is written again)' % (pname, fwhy))
         is_ui = any(x.endswith('type_name_to_ui_name') for x in por)
         is_h = any(x.endswith('type_name_to_ui_support_cxx_header_name') for x in por)
         roles[pname] = ('ui' if is_ui else '') + ('h' if is_h else '')
